@@ -84,6 +84,10 @@ NOISE_TEXTS = [
 PARAM_MENU = [["language", ["s", "de"]], ["ALTREP", ["s", "http://example.com/a,b"]], ["X-p1", ["s", "v1"]],
               ["x-P2", ["s", "semi;colon"]], ["Cn", ["s", "Max Rasmussen"]], ["ROLE", ["s", "REQ-PARTICIPANT"]],
               ["member", ["list", [["s", "mailto:a@x.org"], ["s", "mailto:b@x.org"]]]],
+              # a list may name an entry twice: all of them are written, in the order given
+              ["DELEGATED-TO", ["list", [["s", "mailto:c@x.org"], ["s", "mailto:a@x.org"], ["s", "mailto:c@x.org"],
+                                         ["s", "mailto:b@x.org"], ["s", "mailto:d@x.org"]]]],
+              ["x-twice", ["list", [["s", "k"], ["s", "j"], ["s", "k"]]]],
               ["A-FIRST", ["s", "1"]], ["z-last", ["s", "2"]], ["RELATED", ["s", "END"]],
               ["X-SEAT-1", ["s", "a"]], ["X-SEAT-01", ["s", "b"]], ["X-SEAT-10", ["s", "c"]], ["x-seat-2", ["s", "d"]]]
 
